@@ -34,6 +34,25 @@ def make_probe(xr, leaf_id, d, bs):
     return p
 
 
+
+def light_slack(model, rows, kern):
+    """extra tolerance for the memory-light kernel in float32: its distances come from ||x||^2 - 2 x.z + ||z||^2, so a query row that coincides with (or is very close to)
+    a center gets a distance of order sqrt(u)|x| instead of 0 — and which value it gets depends on the matmul blocking, i.e. on the batch (the property's
+    'up to the rounding error of the distance computation'); bounded per center by |alpha|_max (sqrt(u) |x| sqrt(d) / L)^min(1,q)"""
+    if kern != 'l2_high_dim':
+        return 0.0
+    import math
+    worst = 0.0
+    for t in model.trees:
+        for l in orc.tree_leaves(t):
+            m = l['model']
+            amax = float(m.weights.abs().max())
+            L = float(m.kernel_obj.bandwidth); q = float(m.kernel_obj.exponent)
+            nrm = max(float(np.abs(rows).max()), float(m.centers.abs().max()))
+            Mmax = 1.0 if m.M is None else float(m.M.abs().max()) ** 0.5 + 1.0
+            worst = max(worst, 8 * amax * (math.sqrt(2.0 ** -23) * nrm * Mmax * math.sqrt(rows.shape[1]) / L) ** min(1.0, q))
+    return worst
+
 def run(ck):
     from harness import xr
     ck.rule = ('real xRFM fits (depth 0-4, 1-3 trees, overlap 0/0.1, several kernels/tasks); (i) leaves replaced by exact probe '
@@ -131,7 +150,7 @@ def run(ck):
                 exp = [a / len(model.trees) for a in acc]
                 scale = max(1.0, max(abs(float(v)) for v in exp))
                 W = max(float(l['model'].weights.abs().sum()) for t in model.trees for l in orc.tree_leaves(t))
-                tol = 2e-5 * (W + scale)
+                tol = 2e-5 * (W + scale) + light_slack(model, qrows, kern)
                 err = max(abs(float(e) - g) for e, g in zip(exp, got[r].reshape(-1)))
                 formula_checked += 1
                 ck.case(dict(desc, kind='formula', row=r), nontrivial=True)
@@ -152,7 +171,7 @@ def run(ck):
                 exp = [float(v) for v in orc.leaf_expansion(leaf['model'], Qn[r])]
                 err = max(abs(a - b) for a, b in zip(exp, gn[r]))
                 ck.case(dict(desc, kind='square-block', row=r), nontrivial=True); ck.count('square query block (rows = #centers)')
-                if not (err <= 2e-5 * (W + max(1.0, max(abs(v) for v in exp)))):
+                if not (err <= 2e-5 * (W + max(1.0, max(abs(v) for v in exp))) + light_slack(model, Qn, kern)):
                     ck.violation(f'predict on a batch of {nc} fresh rows (as many as the leaf has centers) gives {gn[r].tolist()} for row {r}, the kernel expansion gives {exp} on {desc}',
                                  dict(desc, row=Qn[r].tolist(), got=gn[r].tolist(), expected=exp, rows=nc), key=json.dumps(dict(site='square-block', kernel=kern)))
                     break
@@ -171,7 +190,7 @@ def run(ck):
             ref = np.concatenate([got.reshape(len(qrows), -1), np.repeat(got.reshape(len(qrows), -1)[:1], 50_011, axis=0),
                                   got.reshape(len(qrows), -1)[::-1]])
             W = max(float(l['model'].weights.abs().sum()) for t in model.trees for l in orc.tree_leaves(t))
-            tolb = 2e-5 * (W + max(1.0, float(np.abs(ref).max())))
+            tolb = 2e-5 * (W + max(1.0, float(np.abs(ref).max()))) + light_slack(model, qrows, kern)
             errs = np.abs(gbig - ref).max(axis=1)
             ck.case(dict(desc, kind='big-batch'), nontrivial=True)
             if not (errs.max() <= tolb):
